@@ -469,7 +469,7 @@ class Machine:
                     return Result(FAIL, -1, events)
             else:
                 t = self.select(st, DFT.End)
-                if t is None:
+                if t is None or (t.error_handling and self.is_accepting(st)):
                     return Result(DONE if self.is_accepting(st) else FAIL, -1, events)
             target_known = self.idx(t.target) >= 0
             if target_known:
